@@ -452,8 +452,8 @@ func ruleSchemaEnum(c *Ctx, r *Rep) {
 			r.Check(has || defErr, "general-name|"+c.FuncKey(fn)+"|"+e, c.FnPos(fn), "a case for "+e+", or the default path returns an error", sprintf("case=%v default-error=%v", has, defErr))
 		}
 	}
-	if len(fns) < 2 {
-		r.Undecided("floor:label-tables", "", sprintf("%d general-name label tables found, expected 2", len(fns)))
+	if len(fns) < 1 {
+		r.Undecided("floor:label-tables", "", sprintf("%d general-name label tables found, expected at least 1", len(fns)))
 	}
 	// rdn-attribute.json enum vs. the short-name table: unknown names must produce an error from the lookup
 	renum, why := schemaEnum(c, "rdn-attribute.json", "enum")
@@ -642,6 +642,23 @@ func ruleHashShape(c *Ctx, r *Rep) {
 				return
 			}
 			seen[typeShort(c, n)+"@"+path] = true
+			if c.IsModObj(n.Obj()) {
+				// a module type with its own JSON or text form decides what the hash sees of it: values that print
+				// alike hash alike. None has one today; one that appears must be looked at.
+				for _, mname := range []string{"MarshalJSON", "MarshalText"} {
+					for _, recv := range []types.Type{n, types.NewPointer(n)} {
+						if obj, _, _ := types.LookupFieldOrMethod(recv, true, n.Obj().Pkg(), mname); obj != nil {
+							if _, isFunc := obj.(*types.Func); isFunc {
+								key := "custom-marshal|" + typeShort(c, n) + "." + mname
+								if !seen[key] {
+									seen[key] = true
+									r.Bad(key, c.Pos(obj.Pos()), "hashed module types are marshalled field by field by encoding/json (every distinct value has a distinct form)", typeShort(c, n)+" defines "+mname+" (reached at "+path+")")
+								}
+							}
+						}
+					}
+				}
+			}
 			if !c.IsModObj(n.Obj()) {
 				// library types: trusted to marshal (time.Time, pkix.*, asn1.*, big.Int); walk exported struct fields for kinds
 				if typeIs(n, "time", "Time") || typeIs(n, "math/big", "Int") {
